@@ -202,8 +202,19 @@ def _retrace_curves():
     return [c, c.reversed(), CubicBezier(0j, 1 + 2j, 3 + 2j, 4 + 0j), Line(4 + 0j, 0j), CubicBezier(0j, 1 + 2j, 3 + 2j, 4 + 0j)]
 
 
+def _closed_by_setter():
+    """an open path that has already answered isclosed() / length(), then closed through Path.end = Path.start"""
+    segs = chain(('L_diagonal', 'Q_generic', 'C_arch'), None)
+    segs.append(Line(segs[-1].end, segs[0].start + (0.5 - 0.25j)))
+    p = Path(*segs)
+    _ = (p.isclosed(), p.iscontinuous(), p.length(), p.start, p.end)
+    p.end = p.start
+    return p
+
+
 # paths that contain EQUAL segments (they retrace themselves): anything that looks a segment up by value goes wrong here
-RAW = {'raw_retrace_lines': (_retrace, False), 'raw_retrace_curves': (_retrace_curves, False)}
+RAW = {'raw_retrace_lines': (_retrace, False), 'raw_retrace_curves': (_retrace_curves, False),
+       'raw_closed_by_end_setter': (_closed_by_setter, True)}
 
 
 def path_T_alphabet(p):
@@ -235,11 +246,12 @@ def all_paths(tier):
 
 def check_path(pname, acc, only=None):
     if pname in RAW:
-        segs, close = RAW[pname][0](), None
+        segs, close = RAW[pname][0](), ('setter' if RAW[pname][1] else None)
     else:
         names, close = all_paths('thorough')[pname]
         segs = chain(names, close)
-    p = Path(*segs)
+    p = segs if isinstance(segs, Path) else Path(*segs)
+    segs = list(p)
     size = max(seg_size(s) for s in segs) * len(segs)
     has_arc = any(isinstance(s, Arc) for s in segs)
     tol = (1e-7 if has_arc else 1e-9) * size
@@ -247,7 +259,7 @@ def check_path(pname, acc, only=None):
     base = {'what': 'path', 'path': pname}
     sig0 = {'closed': closed, 'has_arc': has_arc}
     if pname in RAW:
-        sig0['equal_segments'] = True
+        sig0['equal_segments' if not RAW[pname][1] else 'closed_by_setter'] = True
     Ts = path_T_alphabet(p)
     ls_ = [s_.length() for s_ in p]
     joints = [sum(ls_[:i + 1]) / sum(ls_) for i in range(len(ls_) - 1)]
